@@ -180,6 +180,24 @@ func init() {
 		return Value{}, true
 	}
 	modelModKeys["math/rand.Shuffle"] = func(x *Exec, s *State) []string { return []string{"*"} }
+	// json.Unmarshal(data, &x): x becomes arbitrary (only the object behind the pointer changes)
+	models["encoding/json.Unmarshal"] = func(x *Exec, s *State, in ssa.Instruction, a []Value, c *ssa.CallCommon) (Value, bool) {
+		mi, ok := c.Args[1].(*ssa.MakeInterface)
+		if !ok {
+			panic(unsupported("json.Unmarshal into a value whose type is not syntactically known"))
+		}
+		p := x.val(s, mi.X)
+		pt, ok := p.T.Underlying().(*types.Pointer)
+		if !ok {
+			panic(unsupported("json.Unmarshal into a non-pointer"))
+		}
+		x.frameCheckPtr(s, p, in)
+		nv := x.freshValue("json", pt.Elem())
+		s.assumeRanges(nv)
+		s.store(p, nv)
+		return x.freshResult(s, c.Signature().Results()), true
+	}
+	modelModKeys["encoding/json.Unmarshal"] = func(x *Exec, s *State) []string { return []string{"*"} }
 	models["bytes.Compare"] = func(x *Exec, s *State, in ssa.Instruction, a []Value, c *ssa.CallCommon) (Value, bool) {
 		sa, sb := x.bytesStr(s, s.heap, a[0]), x.bytesStr(s, s.heap, a[1])
 		return Value{T: tInt, S: ite(app("str.<", sa, sb), "(- 1)", ite(eq(sa, sb), "0", "1"))}, true
